@@ -161,6 +161,20 @@ def gen_case(rng: random.Random):
         reconf.sort(key=lambda x: x[0])
         if reconf:
             case["reconf"] = reconf
+    # read-only questions about the configuration before an update: get_seed_values(id) / get_seeds()[id] for streams
+    # with and (mostly) without a seed list -- answered or refused with KeyError, they must not change anything
+    if upd["kind"] == "table" and rng.random() < 0.4:
+        snames = [s["name"] for s in streams if s["kind"] == "stream"]
+        listed0 = {k for k, _ in upd["table"]}
+        unl = [n for n in snames if n not in listed0]
+        qs = []
+        for _ in range(rng.choice([1, 1, 2, 3])):
+            pool = unl if unl and rng.random() < 0.7 else snames
+            if pool:
+                qs.append([rng.randrange(len(calls)), rng.choice(["get_seed_values", "get_seeds"]), rng.choice(pool)])
+        qs.sort(key=lambda x: x[0])
+        if qs:
+            case["queries"] = qs
     return case
 
 
@@ -238,6 +252,17 @@ def oracle_case(case, res):
     # where every stream stands in the sequence of which seed (None: not a stream object)
     gen = [None if s["kind"] == "badstream" else [s["cur"], 0] for s in streams]
     draws_ok = True
+    # read-only queries: the list as it is configured at that moment, or refused (KeyError) when there is none
+    answers = res.get("queries", [])
+    if len(answers) != len(case.get("queries", [])):
+        bad.append(("query-not-answered", f"{len(case.get('queries', []))} queries, {len(answers)} answers"))
+    for at, how, n, kind, val in answers:
+        ls = listed_seeds(case, n, at)
+        q = f"{how}({n!r})" if how == "get_seed_values" else f"get_seeds()[{n!r}]"
+        if ls is None and not (kind == "raise" and val == "KeyError"):
+            bad.append(("query-for-unlisted-stream-answered", f"before call #{at}: {q} for a stream without a seed list gave {kind} {val}"))
+        elif ls is not None and not (kind == "value" and val == ls):
+            bad.append(("query-for-listed-stream-wrong", f"before call #{at}: {q} gave {kind} {val}, configured is {ls}"))
     fbx = {(i, json.dumps(r)): v for i, r, v in res["fb_expect"]}
     for ci, (c, ob) in enumerate(zip(case["calls"], res["obs"])):
         r = c.get("all", c.get("r"))
@@ -470,7 +495,19 @@ def segments(case, res):
             if not all(isinstance(x, int) for x in prev):
                 return None
             streams = [dict(s, cur=prev[i]) for i, s in enumerate(streams)]
-        obs = [cobs(c, ob) for c, ob in zip(case["calls"][a:b], res["obs"][a:b])]
+        obs = []
+        for ci in range(a, b):
+            before = [s["cur"] for s in case["streams"]] if ci == 0 else res["obs"][ci - 1]["seeds"]
+            for at, _how, n, kind, val in res.get("queries", []):
+                if at == ci:
+                    if not all(isinstance(x, int) for x in before):
+                        return None
+                    exc = "None" if kind == "value" else "(Some EKeyError)" if val == "KeyError" else None
+                    if exc is None:
+                        return None
+                    listed = listed_seeds(case, n, ci) is not None
+                    obs.append(f"(CQuery {C.cbool(listed)}, {C.clist(cz(x) for x in before)}, {exc})")
+            obs.append(cobs(case["calls"][ci], res["obs"][ci]))
         if None in obs:
             return None
         out.append(f"({cupdater(u)}, {C.clist(centry(s) for s in streams)}, {C.clist(obs)})")
@@ -548,6 +585,10 @@ def shrink_case(case, sig, hashseed):
             rc = [x for x in rc if x[0] < len(keep)]
             if rc:
                 cand["reconf"] = rc
+            qc = [[len([k for k in keep if k < at]), how, nm] for at, how, nm in case.get("queries", []) if at < n]
+            qc = [x for x in qc if x[0] < len(keep)]
+            if qc:
+                cand["queries"] = qc
             cands.append(cand)
     try:
         outs = C.run_impl_json(DRIVER, cands, timeout=120, env_extra={"PYTHONHASHSEED": hashseed})
@@ -628,7 +669,7 @@ def main(tier: str) -> int:
             # (1) the same in every process
             for k in range(1, len(per_child)):
                 o = per_child[k][idx]
-                if o["obs"] != res["obs"] or o["draws"] != res["draws"]:
+                if (o["obs"] != res["obs"] or o["draws"] != res["draws"]) and "seed-differs-between-processes" not in failures:
                     ci = next(i for i in range(len(res["obs"])) if o["obs"][i] != res["obs"][i]) if o["obs"] != res["obs"] else 0
                     si = next((i for i in range(len(case["streams"])) if o["obs"][ci]["seeds"][i] != res["obs"][ci]["seeds"][i]), 0)
                     s = case["streams"][si]
@@ -700,12 +741,14 @@ def main(tier: str) -> int:
                        "1-4 update_seeds / update_seed calls with replication numbers valid, repeated, 0, beyond the list, negative, ill-typed, bool, huge, "
                        "the streams drawing numbers before and after every call; the seed table configured through StreamSeedInformation."
                        "add_seed_values / get_seeds and, in 45% of the table configurations with >= 2 calls, reconfigured between two calls "
-                       "(a new stream listed, a list replaced by a shorter / longer one); "
+                       "(a new stream listed, a list replaced by a shorter / longer one); in 40% of the table configurations read-only queries "
+                       "(get_seed_values(id) / get_seeds()[id], mostly for streams without a seed list) precede an update; "
                        "40% of the configurations re-run listed in another order with other current seeds; every configuration in "
                        f"{len(hashseeds)} child interpreters; non-trivial = distinct configuration with >= 2 streams in which an accepted update_seeds "
                        "with r > 0 reached the name-hash path (simple updater, or simple/nested fallback for an unlisted stream)")
     run.cov["histogram"] = hist
     run.cov["configurations_with_reconfigured_seed_table"] = sum(1 for c in cases if c.get("reconf"))
+    run.cov["read_only_queries_before_updates"] = sum(len(c.get("queries", [])) for c in cases)
     run.cov["draws"] = dict(STATS, rule="0-5 numbers drawn from every stream before each call, the 2 draws of every stream after each call "
                             "compared with a new random.Random(assigned seed) (updated streams) or with the continuation of its sequence (others); "
                             "25% of the calls repeat the previous replication number, 35% of the seed lists have equal consecutive entries")
